@@ -228,6 +228,7 @@ func (backupManager *BackupManager) validLocation() bool {
 			backupManager.logger.Errorf("Could not open backed up id file at %v. (%w)", backedUpDhIDFile, err)
 			return false
 		}
+		verifhook.Point("backup.idcreated", tmpIDFile)
 		_, err = io.Copy(destination, source)
 		if err == nil {
 			err = destination.Sync()
